@@ -9,6 +9,7 @@
 #include <vector>
 #include <csetjmp>
 #include <csignal>
+#include <sys/resource.h>
 #include "CppUTest/TestHarness.h"
 #include "CppUTest/TestHarness_c.h"
 #include "CppUTest/TestMemoryAllocator.h"
@@ -330,7 +331,14 @@ static void relScenario(Toks& t, Out& o)
 int main()
 {
     setvbuf(stdout, NULL, _IONBF, 0);
-    signal(SIGSEGV, onSegv);
+    // a runaway recursion in the code under test must die at once (the runner lifts the stack limit): 64 MB of stack, and the
+    // handler runs on its own stack so that it can still report the request as crashed
+    struct rlimit rl;
+    if (getrlimit(RLIMIT_STACK, &rl) == 0) { rl.rlim_cur = 64ul << 20; setrlimit(RLIMIT_STACK, &rl); }
+    static char altStack[1 << 16];
+    stack_t ss; ss.ss_sp = altStack; ss.ss_size = sizeof altStack; ss.ss_flags = 0; sigaltstack(&ss, NULL);
+    struct sigaction sa; memset(&sa, 0, sizeof sa); sa.sa_handler = onSegv; sigemptyset(&sa.sa_mask); sa.sa_flags = SA_ONSTACK | SA_NODEFER;
+    sigaction(SIGSEGV, &sa, NULL);
     Toks t; Out o;
     while (readline(t)) {
         std::string kind = t.next();
